@@ -85,6 +85,10 @@ type subStats struct {
 	Excluded    map[string]int `json:"excluded_by_finding"`
 	Samples     []any          `json:"samples"`
 	WallS       float64        `json:"wall_s"`
+	// rate guards are decided by the driver on the counts of all shards together
+	MaxRate       map[string]float64 `json:"max_rate,omitempty"`
+	BaseRate      map[string]float64 `json:"base_rate,omitempty"`
+	FirstExcluded map[string]any     `json:"first_excluded,omitempty"`
 }
 
 type violation struct {
@@ -235,6 +239,11 @@ type Prop[C any] struct {
 	// change that makes many more inputs of a class fail is still a regression: exceeding the bound (set
 	// several times above the rate measured on the unchanged tree) is reported as a violation.
 	MaxRate map[string]float64
+	// BaseRate is, per finding class, the rate of such fall-backs measured on the recorded tree (several seeds of the
+	// quick tier). The driver reports a violation when the count of all shards together exceeds 1.3 times the expected
+	// count by more than five standard deviations: with the case counts of the thorough tier a rise by half is
+	// detected, which the fixed bounds of MaxRate (several times the rate) do not see.
+	BaseRate map[string]float64
 	// OtherFailure, if set, is asked about the error an open finding's input produces when it is replayed: true
 	// means the input fails in a way the finding does not describe, which is reported as a violation.
 	OtherFailure func(findingID string, err error) bool
@@ -388,16 +397,20 @@ func Run[C any](t *testing.T, p Prop[C]) {
 			rt.Fatalf("%s/%s: %v", propID, p.Sub, err)
 		}
 	})
-	for id, max := range p.MaxRate {
-		mu.Lock()
-		n, tot := st.Excluded[id], st.Evaluations
-		mu.Unlock()
-		if tot >= 200 && float64(n) > max*float64(tot) && n >= 5 {
-			err := fmt.Errorf("failures inside finding class %s rose to %d of %d generated cases (%.2f%%), bound %.2f%%: the class is failing far more often than on the recorded tree", id, n, tot, 100*float64(n)/float64(tot), 100*max)
-			recordViolation(p.Sub, "rate of finding class "+id, map[string]any{"class": id, "excluded": n, "evaluations": tot, "example": firstExcluded[id]}, err)
-			t.Errorf("%v", err)
+	// rate guards (Prop.MaxRate): the driver sums the counts of all shards and decides
+	mu.Lock()
+	if len(p.MaxRate)+len(p.BaseRate) > 0 {
+		st.MaxRate, st.BaseRate = p.MaxRate, p.BaseRate
+		st.FirstExcluded = map[string]any{}
+		for id, c := range firstExcluded {
+			_, a := p.MaxRate[id]
+			_, b := p.BaseRate[id]
+			if a || b {
+				st.FirstExcluded[id] = c
+			}
 		}
 	}
+	mu.Unlock()
 }
 
 func decodeCase[C any](raw json.RawMessage) (C, error) {
